@@ -11,7 +11,7 @@ NA = {
  "C16": "pure string function judged by a deterministic external shell",
  "C17": "pure string function",
 }
-PENDING = ["C02", "C03", "C05", "C11", "C12", "C15", "C18", "C19", "C20"]
+PENDING = ["C02", "C03", "C05", "C15", "C18", "C20"]
 SIM = "deterministic simulation: seeded search over schedules and faults on the mechanically rewritten real code, oracle over the recorded history, minimised replay file"
 CHECKS = {
  "C06": dict(world="laneworld", ref="5.1", tech=SIM + "; exactly-once ledger per task object, bounded liveness at simulator quiescence",
@@ -22,6 +22,12 @@ CHECKS = {
    text="Same world; fewer than laneSize workers are pinned by gated tasks, further tasks are pushed (in particular all to one lane); invariant running<=laneSize at every event and, at quiescence with gates closed, no accepted task may be waiting while a worker is idle."),
  "C14": dict(world="laneworld", ref="5.1", tech=SIM + "; vector-clock happens-before race detection inside the simulator, worker head-count and pending-count oracles at quiescence",
    text="Same world with panicking tasks of six dynamic types, several released at once, and concurrent Status() pollers; the simulator's own happens-before race detector watches every field of the lane; head count of workers after the panics; exact pending count at rest; LastPanic must be one of the raised values."),
+ "C11": dict(world="filterworld", ref="5.4", tech=SIM + "; sequential configuration: seeded Add/Remove/Contains histories against a set-of-prefixes reference model, exact equality after every operation",
+   text="The strict, fault-free, single-client configuration of the filter simulation: seeded histories over a colliding universe of prefixes (lengths 0..32, non-canonical spellings, duplicates, removal of absent ranges), with a prologue that places the filter before, at or beyond its list-to-map switch with removed slots; after every operation boundary addresses are probed in 4-byte and 16-byte form and compared with a set-of-prefixes model; invalid arguments must be rejected without effect. There is no schedule in this property: the simulator contributes the seeded history, the model, minimisation and replay, and is the strict twin that the relaxed concurrent oracle of C12 needs beside it."),
+ "C12": dict(world="filterworld", ref="5.4", tech=SIM + "; pre-emption inside critical sections, vector-clock happens-before race detection, interval oracle over the recorded history (stable range => true, never-present => false), final-state check",
+   text="1..3 writer tasks owning disjoint ranges (one toggling 0.0.0.0/0) and 1..3 reader tasks under seeded schedules with pre-emption at every instrumented memory access, crossing the list-to-map switch while readers run; the simulator's race detector decides 'no data races', an interval oracle over invoke/return stamps decides the consistency clause (deliberately weaker than linearizability, which the filter does not provide), and the final membership is compared with the sequential application of each writer's operations."),
+ "C19": dict(world="progressworld", ref="5.5", tech=SIM + "; prefix-sum oracle over the recorded history of wrapped-writer calls and received values, stall detection at simulator quiescence",
+   text="Seeded schedules of one writer task (0..8 Write/WriteString calls, then Close) and 1..2 consumers of four temperaments over a wrapped writer that writes short, fails or fails partially; Size() is compared with the wrapped writer's own tally after every call, a stalled Write shows as a blocked task at quiescence, received values must be non-decreasing prefix sums of completed writes, and Close must deliver the final total and close the channel."),
 }
 NOTE = "Trusted base: the simgo rewriter (chan/select/go -> simrt calls, import shims, in-place access instrumentation) preserves the semantics of the rewritten package; simrt's primitives conform to the Go spec and memory model (conformance suite with exact outcome sets and a two-sided race-detector self-test run in setup_cmd); the harness oracles. Sampling over bounded configurations, not proof."
 m = {
